@@ -20,6 +20,7 @@ import (
 
 	"github.com/containerd/nri/pkg/adaptation"
 	"github.com/containerd/nri/pkg/api"
+	"github.com/containerd/nri/pkg/stub"
 	"github.com/containerd/nri/pkg/vhook"
 
 	"verif/harness/rec"
@@ -441,6 +442,24 @@ func (s *session) oneRun(w *rec.Writer) error {
 	defer vhook.Set(nil)
 
 	h := s.handlers()
+	if o.Updates {
+		// a stub that was never started must report that it has no service, at once
+		np := &rig.Plugin{Name: "never-started", Idx: "99"}
+		if st, err := stub.New(np, stub.WithPluginName("never-started"), stub.WithPluginIdx("99"),
+			stub.WithSocketPath(r.Socket)); err == nil {
+			resC := make(chan error, 1)
+			go func() {
+				_, e := st.UpdateContainers([]*api.ContainerUpdate{{ContainerId: "nostart"}})
+				resC <- e
+			}()
+			select {
+			case e := <-resC:
+				s.ev("nostart", "noservice", errors.Is(e, stub.ErrNoService), "blocked", false, "errtext", fmt.Sprint(e))
+			case <-time.After(3 * time.Second):
+				s.ev("nostart", "noservice", false, "blocked", true, "errtext", "")
+			}
+		}
+	}
 	var wg sync.WaitGroup
 	started := []string{}
 	var stmu sync.Mutex
